@@ -26,6 +26,7 @@ for l, a, b in zip(lines, il, ml):
     claim = kv.get("claim", "?"); tags = kv.get("tags", "")
     for e in ap[1:]:
         name, val = e.split("=", 1)
+        val = val.split(":code=")[0]
         if val in ("compiled",): cnt[(tag, name, "not-run")] += 1; continue
         if val == "compile-err": cnt[(tag, name, "compile-err", tags)] += 1; ex.setdefault((tag, name, "compile-err", tags), (l, a, b)); continue
         if claim != "in": cnt[(tag, name, "out-of-claim")] += 1; continue
@@ -33,7 +34,9 @@ for l, a, b in zip(lines, il, ml):
         f = dict(x.split("=", 1) for x in ap[0].split()[1:] if "=" in x)
         want = "ok:r0=%s:mem=%s:mbuff=%s:LOG=%s" % (f.get("r0"), f.get("mem"), f.get("mbuff"), f.get("log"))
         got = val.rsplit(":align=", 1)[0]
+        sem = kv.get(name + "sem", "?")
         if got == want: cnt[(tag, name, "agree")] += 1
+        elif got == sem: cnt[(tag, name, "DIFF-as-modelled", tags)] += 1
         else:
             key = (tag, name, "DIFF", tags); cnt[key] += 1; ex.setdefault(key, (l, a, b))
         al = val.rsplit(":align=", 1)[1] if ":align=" in val else "ff"
